@@ -19,6 +19,7 @@ LEVEL_TEXT = ("Leaf contracts of the map machinery (linear index -> output posit
               "source; the property itself - "
               "Pipeline.map == MapSpec denotation - is a statement-level contract evaluated on the real Pipeline.map "
               "over generated programs with tagging bodies (bounded). 'other': proved leaves + bounded top level.")
+LEVEL_TEXT += (" Also proved: _construct_internal_shapes - the sizes of function-supplied axes that a run records are the caller's entries plus, for every function that declares an internal shape and whose output name the caller did not list, that shape under each of its output names (108 obligations; unique output names enter as a ghost producer-of-a-name witness).")
 LEVEL_NOTE = ("Bounded: random valid programs of 1..3 (thorough 4) functions, rank<=2 (thorough 3), axis sizes 1..3 "
               "(distinct per index name where possible), storages dict/file_array/shared_memory_dict, sequential. "
               "Trusted: numpy indexing, cloudpickle, the reference denotation in rtc/progs.py (written from the "
